@@ -9,6 +9,30 @@ use common::{par::*, report::{finish, Meta}, *};
 use maps::{cmp, gen, CommentClass, GenCfg, Ins, Maps};
 use quill::tiny_v2;
 
+// scratch files for the `read_file(path)` entry point (one per worker thread, overwritten per use)
+static SCRATCH_DIR: std::sync::OnceLock<String> = std::sync::OnceLock::new();
+static NEXT_FILE: std::sync::atomic::AtomicUsize = std::sync::atomic::AtomicUsize::new(0);
+thread_local! { static MY_FILE: std::cell::RefCell<Option<std::path::PathBuf>> = const { std::cell::RefCell::new(None) }; }
+fn scratch_file() -> Option<std::path::PathBuf> {
+    let dir = SCRATCH_DIR.get()?; // not set in the Miri slice (no files there)
+    Some(MY_FILE.with(|f| f.borrow_mut().get_or_insert_with(|| std::path::PathBuf::from(format!("{dir}/t{}.tiny", NEXT_FILE.fetch_add(1, std::sync::atomic::Ordering::Relaxed)))).clone()))
+}
+
+/// The three writing entry points of the format (`write_vec`, `write_string`, `write` into any `io::Write` - here one that
+/// accepts only a few bytes per call) must produce the same bytes: the property speaks about "the written text".
+fn write_via<const N: usize>(q: &quill::tree::mappings::Mappings<N, ()>, how: u64) -> anyhow::Result<(Vec<u8>, u64)> {
+    match how % 3 {
+        0 => tiny_v2::write_vec(q).map(|v| (v, 0)),
+        1 => tiny_v2::write_string(q).map(|s| (s.into_bytes(), 0)),
+        _ => {
+            let mut w = common::io::ChunkedWriter::new(how, 1 + (how % 13) as usize);
+            tiny_v2::write(q, &mut w)?;
+            Ok((w.data, w.short_writes))
+        }
+    }
+}
+const WRITE_ENTRY: [&str; 3] = ["entry.write_vec", "entry.write_string", "entry.write(short-write writer)"];
+
 /// cause class of a comment that did not survive (one defect = one signature)
 fn cause(expected: Option<&str>) -> &'static str {
     match expected {
@@ -136,10 +160,13 @@ fn case<const N: usize>(rng: &mut Rng, rep: &mut Report, cfg: &GenCfg, hostile: 
         let mut r2 = rng.fork();
         let mut ins = match k { 0 => Ins::Sorted, 1 => Ins::Reverse, _ => Ins::Shuffle(&mut r2) };
         let q = maps::to_quill::<N, ()>(&m, &mut ins).expect("generated set is expressible");
-        match guard(|| tiny_v2::write_vec(&q)) {
-            Err(p) => { rep.violation(format!("C03 panic {}", p.site()), json!({"call": "write_vec", "panic": p.message, "input": input()})); return; }
+        // order k is written through entry point (case + k) mod 3, so the comparison of the four texts below also compares the entry points
+        let how = (rng.fork().below(3) + k) as u64;
+        rep.count(WRITE_ENTRY[(how % 3) as usize]);
+        match guard(|| write_via(&q, how)) {
+            Err(p) => { rep.violation(format!("C03 panic {}", p.site()), json!({"call": "write_vec / write_string / write", "panic": p.message, "input": input()})); return; }
             Ok(Err(e)) => { rep.violation("C03 write: fails on a well-formed set", json!({"error": format!("{e:#}"), "input": input()})); return; }
-            Ok(Ok(t)) => texts.push(t),
+            Ok(Ok((t, short))) => { if short > 0 { rep.count("entry.write.short_writes_happened"); } texts.push(t) }
         }
     }
     rep.add("orders_compared", 4);
@@ -149,7 +176,7 @@ fn case<const N: usize>(rng: &mut Rng, rep: &mut Report, cfg: &GenCfg, hostile: 
             let (mut la, mut lb): (Vec<&str>, Vec<&str>) = (a.lines().collect(), b.lines().collect());
             la.sort(); lb.sort();
             let kind = if la == lb { "same lines in a different order" } else { "different lines" };
-            rep.violation(format!("C03 canonical: written text depends on insertion order ({kind})"), json!({"order_sorted": a, "other_order": b, "input": input()}));
+            rep.violation(format!("C03 canonical: written text depends on insertion order or on the entry point used for writing ({kind})"), json!({"order_sorted": a, "other_order": b, "input": input()}));
             break;
         }
     }
@@ -158,7 +185,13 @@ fn case<const N: usize>(rng: &mut Rng, rep: &mut Report, cfg: &GenCfg, hostile: 
     if rep.want_sample() && nontrivial(&m) { rep.sample(|| json!({"workload": if hostile { "hostile" } else { "main" }, "written_tiny": text_s})); }
     let has_tab = { let mut t = false; m.visit(|_, _, c| if c.as_deref().is_some_and(|c| c.contains('\t')) { t = true }); t };
     // every third text is delivered through a reader that returns short reads (legal for any `Read`)
-    let r = match guard(|| if common::rng::fnv(text) % 3 == 0 { tiny_v2::read::<N, ()>(common::io::ChunkedReader::new(&text[..], common::rng::fnv(text), 1 + text.len() % 11)) } else { tiny_v2::read::<N, ()>(&text[..]) }) {
+    // ... and every fourth through the path-taking entry point `read_file`
+    let via_file = if common::rng::fnv(text) % 4 == 1 { scratch_file() } else { None };
+    if let Some(p) = &via_file {
+        if let Err(e) = std::fs::write(p, text) { eprintln!("HARNESS-ERROR cannot write scratch file {p:?}: {e}"); std::process::exit(3); }
+        rep.count("entry.read_file");
+    } else if common::rng::fnv(text) % 3 == 0 { rep.count("entry.read(short-read reader)"); } else { rep.count("entry.read(slice)"); }
+    let r = match guard(|| if let Some(p) = &via_file { tiny_v2::read_file::<N, ()>(p) } else if common::rng::fnv(text) % 3 == 0 { tiny_v2::read::<N, ()>(common::io::ChunkedReader::new(&text[..], common::rng::fnv(text), 1 + text.len() % 11)) } else { tiny_v2::read::<N, ()>(&text[..]) }) {
         Err(p) => { rep.violation(format!("C03 panic {}", p.site()), json!({"call": "read", "panic": p.message, "text": text_s, "input": input()})); return; }
         Ok(Err(e)) => {
             let why = if has_tab { " (a comment contains TAB)" } else { "" };
@@ -280,6 +313,9 @@ fn main() {
     let mut ctx = Ctx::from_args("C03", 40, 480);
     let replay = load_replay(&mut ctx);
     canaries();
+    let dir = format!("{}/scratch/c03-{}", ctx.out_dir, std::process::id());
+    if let Err(e) = std::fs::create_dir_all(&dir) { eprintln!("HARNESS-ERROR cannot create {dir}: {e}"); std::process::exit(3); }
+    SCRATCH_DIR.set(dir.clone()).ok();
     let mut rep = Report::new();
     let main_cfg = GenCfg { comments: CommentClass::Rich, empty_comments: true, ..GenCfg::default() };
     let loose_cfg = GenCfg { unique_per_namespace: false, absent: (1, 2), ..main_cfg.clone() };
@@ -307,6 +343,12 @@ fn main() {
             "siblings>=2.class", "siblings>=2.field", "siblings>=2.method", "siblings>=2.parameter", "twins.same_name_row_different_descriptor", "reader.nontrivial",
             "hostile_(contains_backslash-n)", "hostile_(contains_TAB)", "hostile_(ends_with_CR)", "fixed_point.checked"] {
             meta.oblige(format!("at least one case with {k}"), rep.get(k) > 0);
+        }
+    }
+    let _ = std::fs::remove_dir_all(&dir);
+    if ctx.replay.is_none() {
+        for k in ["entry.write_vec", "entry.write_string", "entry.write(short-write writer)", "entry.write.short_writes_happened", "entry.read_file", "entry.read(short-read reader)", "entry.read(slice)"] {
+            meta.oblige(format!("every public entry point of the format is driven: {k} (>= 100)"), rep.get(k) >= 100);
         }
     }
     if ctx.replay.is_none() { meta.oblige("sets with blank-only / blank-containing non-source names", rep.get("sets.with_blank_names") >= 50); }
